@@ -10,7 +10,8 @@
    C09_direct_race_refuted = known finding C09:direct-race (a parked command survived a
    re-presentation of its node). *)
 From Coq Require Import List NArith ZArith Bool String.
-From AMS Require Import Models Flush FlushFacts.
+From Coq Require Import Sorted.
+From AMS Require Import Models Flush FlushFacts FlushOrder.
 Import ListNotations.
 Local Open Scope Z_scope.
 
@@ -75,6 +76,34 @@ Theorem C09_direct_race_refuted :
        last_for k (f_sent s) = Some t /\ last_for k (f_written s) <> Some t /\ f_buf s = [].
 Proof. exact direct_race_refuted. Qed.
 Print Assumptions C09_direct_race_refuted.
+
+(* ORDER.  Stronger than "the last value wins": with the sends numbered in time order, in every
+   schedule whose racing sends park, at every moment, the values written for one key left in the
+   order in which they were sent — an older value is never written after a newer one
+   (theories/FlushOrder.v: invariant OInv = every written tag for a key is below every live tag
+   for it, a snapshot entry is never newer than the buffer's entry for its key). *)
+Theorem C09_writes_in_send_order :
+  forall ops,
+    Forall parks_only ops -> StronglySorted Z.lt (sent_tags ops) ->
+    let s := frun true finit ops in
+    forall a k t1 b t2, f_written s = a ++ (k, t1) :: b -> In (k, t2) b -> t1 < t2.
+Proof. exact writes_in_send_order. Qed.
+Print Assumptions C09_writes_in_send_order.
+
+(* the known finding C09:direct-race is exactly a violation of that order *)
+Theorem C09_send_order_direct_race_refuted :
+  exists ops a k t1 b t2,
+    StronglySorted Z.lt (flat_map (fun o => match o with FSend _ t | FDirectBegin _ t => [t] | _ => [] end) ops)
+    /\ f_written (frun true finit ops) = a ++ (k, t1) :: b /\ In (k, t2) b /\ ~ t1 < t2.
+Proof. exact send_order_direct_race_refuted. Qed.
+Print Assumptions C09_send_order_direct_race_refuted.
+
+Example C09_send_order_example :
+  let ops := [FSend (3, 1, 2) 100; FSend (3, 0, 2) 200; FWake 3; FBegin; FSend (3, 1, 2) 201;
+              FEnd true; FBegin; FEnd true; FWake 3; FBegin; FEnd true] in
+  StronglySorted Z.lt (sent_tags ops)
+  /\ f_written (frun true finit ops) = [((3, 1, 2), 100); ((3, 0, 2), 200); ((3, 1, 2), 201)].
+Proof. exact writes_in_send_order_example. Qed.
 
 Example C09_example :
   let ops := [FSend (3, 1, 2) 100; FSend (3, 0, 2) 200; FWake 3; FBegin; FSend (3, 1, 2) 101;
